@@ -92,7 +92,7 @@ func checkProperty(prog *Program, prop, tier string, seed, timeoutS int, loadS f
 			c := *o
 			second = append(second, &c)
 		}
-		discharge(second, solveOpts{timeoutS: timeoutS, workDir: work + "-2", seed: seed + 7, solvers: []string{"z3", "z3-new", "cvc5"}})
+		discharge(second, solveOpts{timeoutS: timeoutS, workDir: work + "-2", seed: seed + 7, solvers: []string{"z3", "z3-new-a2", "z3-new", "cvc5"}})
 		defer os.RemoveAll(work + "-2")
 		for i, o := range second {
 			if all[i].Status == "unsat" && !o.ExpectSat && o.Status != "unsat" {
@@ -109,6 +109,27 @@ func checkProperty(prog *Program, prop, tier string, seed, timeoutS int, loadS f
 			failedFn[o.Fn] = true
 		}
 	}
+	// an unreachable return alone is dead code (reported in the evidence), not vacuity; a function none of
+	// whose returns is reachable, or whose entry assumptions are contradictory, is
+	allReturnsDead := map[string]bool{}
+	hasReturn := map[string]bool{}
+	liveReturn := map[string]bool{}
+	var deadReturns []string
+	for _, o := range all {
+		if o.ExpectSat && strings.Contains(o.Name, "#cover:return") {
+			hasReturn[o.Fn] = true
+			if o.Status != "unsat" {
+				liveReturn[o.Fn] = true
+			} else {
+				deadReturns = append(deadReturns, o.Name)
+			}
+		}
+	}
+	for fn := range hasReturn {
+		if !liveReturn[fn] {
+			allReturnsDead[fn] = true
+		}
+	}
 	nObl, nDis := 0, 0
 	var samples []any
 	solverTime := 0.0
@@ -116,7 +137,7 @@ func checkProperty(prog *Program, prop, tier string, seed, timeoutS int, loadS f
 	for _, o := range all {
 		solverTime += o.Seconds
 		if o.ExpectSat {
-			if o.Status == "unsat" && !failedFn[o.Fn] {
+			if o.Status == "unsat" && !failedFn[o.Fn] && (strings.HasSuffix(o.Name, "#cover:entry") || allReturnsDead[o.Fn]) {
 				viols = append(viols, violation{obl: o.Name, reason: "vacuity: " + o.Name + " is unsatisfiable (contradictory assumptions)", output: o.Output, pos: o.Pos})
 			}
 			continue
@@ -213,6 +234,7 @@ func checkProperty(prog *Program, prop, tier string, seed, timeoutS int, loadS f
 		"cover_checks":             len(all) - nObl,
 		"known_findings_seen":      knownSeen,
 		"translation_warnings":     warns,
+		"unreachable_returns":      deadReturns,
 		"per_query_timeout_s":      timeoutS,
 	}
 	if nObl == 0 {
